@@ -57,7 +57,9 @@ class C16(Check):
         Rp = self.R
         data = np.zeros((T, n))
         labels = [c.int('l_%d' % i, 0, K - 1) for i in range(T)]
-        args = states.user_args(Rp, K)
+        # the hyper-parameters travel with the model state; the criterion is a function of the labels,
+        # the MRFs and the fitted covariances only, whatever their values
+        args = states.user_args(Rp, K, eps=c.real('eps', 0), lam=c.real('lam', 0), beta=c.real('beta', 0))
         st = states.fitted_state(Rp, c, K, n, labels, data, args, spd=True)
         labs = states.labels_of(st)
         fz = states.freeze(st)
